@@ -87,6 +87,9 @@ class _IncrementalState:
                 if isinstance(prev_value, torch.Tensor) and isinstance(new_value, torch.Tensor):
                     if torch.equal(prev_value, new_value):
                         continue
+                elif isinstance(prev_value, torch.Tensor) or isinstance(new_value, torch.Tensor):
+                    # A tensor never equals a non-tensor (`==` would broadcast), retain the new value
+                    pass
                 elif prev_value == new_value:
                     continue
             except Exception:
